@@ -398,6 +398,7 @@ func main() {
 		res.Finish()
 	}
 	e2() // before any olla instance exists
+	e4()
 	depth := 4
 	if report.Thorough() {
 		depth = 6
